@@ -251,6 +251,9 @@ func VerifC16SizeSlice() {
 	b := map[string]any{"s": s}
 	v, err := fEval("s | size", b)
 	nd.Assert(err == nil && v.(int) == len(chars), "size-counts-characters")
+	// the size property of a string is the same count
+	vp, errp := fEval("s.size", b)
+	nd.Assert(errp == nil && vp.(int) == len(chars), "size-property-counts-characters")
 	start := nd.Int()
 	hasLen := nd.Choice(2) == 1
 	b["start"] = start
